@@ -306,7 +306,9 @@ func runC20(r *Report) {
 		"races inside user handlers, net/http, the HTTPClient implementation, and user code assigning LogError concurrently are outside generated code",
 		"value-tag echo (each caller gets its own response) follows from request-locality and is not observed",
 		"programs bounded by the corpus")
-	s3, err := BuildS3(S3Options{TemplateDebug: true, SSA: true})
+	gdir, gclean := thoroughCorpusFor(r, "C20")
+	defer gclean()
+	s3, err := BuildS3(S3Options{TemplateDebug: true, SSA: true, ExtraCorpus: gdir})
 	if err != nil {
 		r.Break("S3 build: %v", err)
 		return
